@@ -19,7 +19,7 @@ CLAIMS = {
             "impl (forwarders incl. the type-erased bridge, Option, Empty, And, Or, Wrap, FromFilter, FirstDefined, "
             "Runtime, macro entry points) as exactly-once / truth-table / short-circuit rules; leaf emitters bypass "
             "filter, clock and ctxt. The conclusion for all combinator trees follows by structural induction (paper "
-            "step). Does not decide what user-supplied leaf filters/emitters do. Round 2: the proc-macro side of the emit hooks is read off emit_macros' quote! templates (argument count and like-named variable/parameter agreement at the macro/runtime boundary). Thorough tier repeats the rules on the no_std and alloc-only builds. Round 4: a macro call without `when` passes the empty filter (read off the quote stream). Round 5: runtime::shared()/internal() are exactly <SLOT>.get(), a fresh read of the slot on every call (no memoisation). Round 6: emit!(evt: ..) passes the caller's event on without setting an extent or reading the clock.",
+            "step). Does not decide what user-supplied leaf filters/emitters do. Round 2: the proc-macro side of the emit hooks is read off emit_macros' quote! templates (argument count and like-named variable/parameter agreement at the macro/runtime boundary). Thorough tier repeats the rules on the no_std and alloc-only builds. Round 4: a macro call without `when` passes the empty filter (read off the quote stream). Round 5: runtime::shared()/internal() are exactly <SLOT>.get(), a fresh read of the slot on every call (no memoisation). Round 6: emit!(evt: ..) passes the caller's event on without setting an extent or reading the clock. Round 7: no non-forwarding collection answers Props::pull from its parts' pull; every runtime assembled by Setup carries all five components; And::blocking_flush splits the timeout in Duration units.",
             "custom MIR dataflow/path rules (rustc_private fact extractor + provenance, path counting, truth tables)",
             "3/C01"),
     "C02": ("Decides on built MIR for every impl of Props in the workspace (24 for_each bodies, enumerated from the "
@@ -40,7 +40,7 @@ CLAIMS = {
             "only on the filter's accept edge) and takes state/data; Timer reads the clock once at start and once at "
             "extent, range(start..now); the default completion's panic arm; level plumbing of the macro completion "
             "hooks; argument agreement (no swapped same-typed arguments) incl. the proc-macro crate. Thorough adds "
-            "the macro call-site corpus. Not decided: values of clock readings (backwards clocks). Round 2: ToExtent for Timer is Timer::extent(); the tokens the span macro passes as panic_lvl derive from the panic_lvl argument only (and lvl from the default level only), read off the quote! templates; generated hook calls agree with the hooks' parameter names; is_panicking() is std::thread::panicking() (constant false without std, thorough tier). Round 5: in the macro completion hook with_lvl and with_panic_lvl are each control-dependent on their own option only and the completion that runs has been through both.",
+            "the macro call-site corpus. Not decided: values of clock readings (backwards clocks). Round 2: ToExtent for Timer is Timer::extent(); the tokens the span macro passes as panic_lvl derive from the panic_lvl argument only (and lvl from the default level only), read off the quote! templates; generated hook calls agree with the hooks' parameter names; is_panicking() is std::thread::panicking() (constant false without std, thorough tier). Round 5: in the macro completion hook with_lvl and with_panic_lvl are each control-dependent on their own option only and the completion that runs has been through both. Round 7: SpanGuard has no Clone/Copy impl.",
             "custom MIR typestate/dataflow rules (guarded-call, field provenance of aggregate constructions, "
             "path-sensitive write-back) + argument-agreement lint",
             "3/C05"),
@@ -54,7 +54,7 @@ CLAIMS = {
             "shared id; storage is thread_local!; root frames do not read current state, pushed frames are a "
             "copy-on-write snapshot overlaid with HashMap::insert, disabled = open_push(Empty); frames are Arc "
             "snapshots without interior mutability; 30 forwarding/erased Ctxt methods forward once. Not decided: "
-            "that user code exits in stack order; cross-task schedules beyond the per-poll bracket. Round 4: ThreadLocalCtxt::default() is new() (a fresh id). Round 6: every wrapping/bridging impl of Ctxt defines open_push (the trait default does not reproduce the thread-local overlay); a replace-and-hand-back spelling of the swap is accepted.",
+            "that user code exits in stack order; cross-task schedules beyond the per-poll bracket. Round 4: ThreadLocalCtxt::default() is new() (a fresh id). Round 6: every wrapping/bridging impl of Ctxt defines open_push (the trait default does not reproduce the thread-local overlay); a replace-and-hand-back spelling of the swap is accepted. Round 7: Frame and EnterGuard have no Clone/Copy impl; the id counter is as wide as the ids; the thread-local frame enumerates every buffered pair; open_push never unwraps an empty snapshot.",
             "custom MIR rules: guard liveness across calls incl. unwind edges, who-may-call, provenance of map keys, "
             "constant evaluation of the id counter",
             "3/C03"),
@@ -67,7 +67,7 @@ CLAIMS = {
             "stores the child; push_ctxt pushes ids only on the enabled edge and opens a disabled frame otherwise; "
             "the begin-span hook passes rt.ctxt()/clock()/rng(), completion hooks emit with the runtime's ctxt; the "
             "typed TraceId/SpanId fast path of the thread-local buffer; the RAII frame bracket incl. unwind (ids "
-            "revert when a span ends). Not decided: id distinctness (rng), schedules beyond the per-poll bracket. Round 2: every wrapper and the type-erased Ctxt bridge forward open_disabled/open_push/... to the same-named method; an id's text is read by the hex decoder only (no decimal text parse in front of it), TraceId/SpanId siblings agree; the generated __private_begin_span call passes like-named values at like-named parameters. Round 4: the hex codec rules of C15 and the completion typestate of C05 also run here. Round 6: in both arms of the span macro the setup tokens precede the __private_begin_span call in the generated code; the thread-local swap/construction rules of C03 run here too.",
+            "revert when a span ends). Not decided: id distinctness (rng), schedules beyond the per-poll bracket. Round 2: every wrapper and the type-erased Ctxt bridge forward open_disabled/open_push/... to the same-named method; an id's text is read by the hex decoder only (no decimal text parse in front of it), TraceId/SpanId siblings agree; the generated __private_begin_span call passes like-named values at like-named parameters. Round 4: the hex codec rules of C15 and the completion typestate of C05 also run here. Round 6: in both arms of the span macro the setup tokens precede the __private_begin_span call in the generated code; the thread-local swap/construction rules of C03 run here too. Round 7: every Rng wrapper/bridge defines and forwards every method its siblings forward (span ids reach the configured source).",
             "custom MIR provenance rules (argument origins, constant keys vs field names, guarded calls, guard "
             "liveness incl. unwind)",
             "3/C04"),
@@ -79,7 +79,7 @@ CLAIMS = {
             "exactly those paths), replaced only by the receiver, each flag has one writer; a retry re-submits the "
             "processor's remainder with the same watchers; Sender/Receiver are generic over T: Channel only, Receiver is "
             "not Clone and is consumed by exec, nothing is spawned; no unaccounted panic-capable site in channel code "
-            "outside catch_unwind. The linearisation over all interleavings is a paper step from these premises. Round 4: Retry::next is exactly current+1 (or saturating) compared <= max. Round 5: the send entry points are part of the claim: in Sender::send no path from the capacity test returns without the push except over the !is_open edge; nothing reachable from the blocking/fallible/async variants truncates. Round 6: bounded() starts open, idle and empty with the capacity given and one shared state.",
+            "outside catch_unwind. The linearisation over all interleavings is a paper step from these premises. Round 4: Retry::next is exactly current+1 (or saturating) compared <= max. Round 5: the send entry points are part of the claim: in Sender::send no path from the capacity test returns without the push except over the !is_open edge; nothing reachable from the blocking/fallible/async variants truncates. Round 6: bounded() starts open, idle and empty with the capacity given and one shared state. Round 7: Sender and Receiver have no Clone/Copy impl (Drop for Sender closes the channel); a truncation adds exactly one to its counter.",
             "custom MIR rules: lock/critical-section counting, guard provenance of field reads, who-may-write table, "
             "predicate (bound) inspection, panic-site inventory",
             "3/C06"),
@@ -90,7 +90,7 @@ CLAIMS = {
             "a retried remainder; only the receiver replaces the pending batch or its watchers; blocking/async flush "
             "wait on the notifier their callback triggers and return its result; end to end: the file worker returns Ok "
             "only after flush+sync_all, the OTLP transport only when no request is left, every OTLP signal sender is "
-            "flushed and a failed one fails the flush, wrappers forward. Not decided: timeouts, receiver scheduling. Round 2: flush/empty watchers are fired only by the receiver on the batch it took, never by a sender on the pending batch. Round 4: every configured OTLP signal is flushed on every path that reports success. Round 6: Trigger::wait_timeout returns true only where its latest reading of the flag was true; push_on_X appends to the list notify_on_X empties; bounded() starts idle.",
+            "flushed and a failed one fails the flush, wrappers forward. Not decided: timeouts, receiver scheduling. Round 2: flush/empty watchers are fired only by the receiver on the batch it took, never by a sender on the pending batch. Round 4: every configured OTLP signal is flushed on every path that reports success. Round 6: Trigger::wait_timeout returns true only where its latest reading of the flag was true; push_on_X appends to the list notify_on_X empties; bounded() starts idle. Round 7: Sender/Receiver are not Clone; the write_event rule of C10 runs here too.",
             "custom MIR rules: path-condition truth tables, natural-loop membership and must-pass-through, provenance",
             "3/C07"),
     "C08": ("Decides on built MIR: the processor runs only inside catch_unwind and its future is polled only through "
@@ -100,7 +100,7 @@ CLAIMS = {
             "sender or receiver closes the channel under the lock; exec returns only on the empty arm with the channel "
             "closed, decided inside the one critical section; tokio blocking entry points never call block_on and call "
             "block_in_place only under a runtime-flavour check (fixed defect); send_or_wait waits the remaining time; "
-            "panic-site inventory of channel code outside catch_unwind. Not decided: bounded time, OS scheduling. Round 2: the wait callback handed to send_or_wait captures nothing derived from the caller's total timeout and waits for its own (remaining-time) parameter. Thorough tier repeats the channel rules on the build without tokio. Round 4: Duration/SystemTime/Instant operators outside a reasoned table are reported (they panic on overflow). Round 5: every Result-returning call in the channel crate is inspected (reasoned allow table); the tokio worker blocks on a Runtime built in place with timers on, never on a borrowed Handle; each OTLP signal is flushed with the time remaining after the previous one; the retried batch keeps the current batch's watchers (root provenance). Round 6: when_empty/when_flushed invoke or park their callback exactly once on every path in the list of their own event; send_or_wait's expiry test is elapsed() >= timeout and its callers' elapsed callbacks return a clock reading; back-offs are configured with 0 < min <= max.",
+            "panic-site inventory of channel code outside catch_unwind. Not decided: bounded time, OS scheduling. Round 2: the wait callback handed to send_or_wait captures nothing derived from the caller's total timeout and waits for its own (remaining-time) parameter. Thorough tier repeats the channel rules on the build without tokio. Round 4: Duration/SystemTime/Instant operators outside a reasoned table are reported (they panic on overflow). Round 5: every Result-returning call in the channel crate is inspected (reasoned allow table); the tokio worker blocks on a Runtime built in place with timers on, never on a borrowed Handle; each OTLP signal is flushed with the time remaining after the previous one; the retried batch keeps the current batch's watchers (root provenance). Round 6: when_empty/when_flushed invoke or park their callback exactly once on every path in the list of their own event; send_or_wait's expiry test is elapsed() >= timeout and its callers' elapsed callbacks return a clock reading; back-offs are configured with 0 < min <= max. Round 7: Sender/Receiver are not Clone; an expired send_or_wait returns (no further wait or attempt is reachable from the expired edge).",
             "custom MIR rules: containment (who-may-call), loop back-edge control dependence, guard liveness, effect names",
             "3/C08"),
     "C09": ("Decides on built MIR: send tests len >= max_capacity under the lock, clears on the full edge, counts the "
@@ -110,7 +110,7 @@ CLAIMS = {
             "returns the item on expiry; the file and OTLP emitters' emit() reach (call graph over workspace bodies) no "
             "filesystem/network/sleep/condvar/block_on/blocking-send effect and end in Sender::send; for every impl "
             "Channel, clear() resets each field push() updates or len() reads, and the OTLP channel's len is its event "
-            "count. Not decided: effects inside dependencies, wall-clock bounds. Round 2: same wait-closure rule as C08. Round 5: nothing reachable from the blocking, fallible or async send variants calls the truncating Sender::send or Channel::clear; send always enqueues once past the capacity test. Round 6: send_or_wait reports Ok only on the Ok edge of a try_send (never on expiry); the sender's capacity is the argument of bounded().",
+            "count. Not decided: effects inside dependencies, wall-clock bounds. Round 2: same wait-closure rule as C08. Round 5: nothing reachable from the blocking, fallible or async send variants calls the truncating Sender::send or Channel::clear; send always enqueues once past the capacity test. Round 6: send_or_wait reports Ok only on the Ok edge of a try_send (never on expiry); the sender's capacity is the argument of bounded(). Round 7: Sender/Receiver are not Clone.",
             "custom MIR rules: comparison-operator and edge inspection, call-graph effect reachability, field read/write sets",
             "3/C09"),
     "C10": ("Decides the worker's structure on built MIR (not what the OS does): every Ok return is dominated by "
@@ -121,7 +121,7 @@ CLAIMS = {
             "bare Write::write; reuse opens in recovery mode, create clean; open_new = create_new+append, open_existing "
             "append-only, parent directory synced before a created file is used; emit() appends a missing separator; "
             "advance() steps by one and subtracts the taken length; events the cursor moved past are synced before any "
-            "return (one known finding). Not decided: byte identity, the in-memory fault model. Round 2: the channel's retry budget is reset per batch and the retry loop re-submits the returned remainder (shared with C08/C06). Round 5: every Result-returning call in emit_file (143 sites) is inspected outside a 3-row reasoned table (error discipline). Round 6: the std::fs adapters perform the like-named std operation on their own file/path (table); the configured separator and writer reach worker and emitter unchanged.",
+            "return (one known finding). Not decided: byte identity, the in-memory fault model. Round 2: the channel's retry budget is reset per batch and the retry loop re-submits the returned remainder (shared with C08/C06). Round 5: every Result-returning call in emit_file (143 sites) is inspected outside a 3-row reasoned table (error discipline). Round 6: the std::fs adapters perform the like-named std operation on their own file/path (table); the configured separator and writer reach worker and emitter unchanged. Round 7: any further io::Write method defined on StdFile forwards to the same-named std method (no weakened write_all).",
             "custom MIR rules: dominance/must-pass-through with ?-success edges, field-write ordering, constant options",
             "3/C10"),
     "C12": ("Decides on built MIR (async bodies pre-lowering): in OtlpTransport::send each iteration peeks one request, "
@@ -131,7 +131,7 @@ CLAIMS = {
             "counts it once; one Receiver::exec with its own transport per signal; the cached connection is taken before "
             "and handed back only after a successful request, inside tokio::time::timeout; the accepted status sets "
             "computed from the comparison constants are exactly HTTP 200..=299 and grpc-status 0; a transport error is "
-            "retryable. Not decided: network/collector behaviour, back-off timing. Round 2: every configured signal is flushed and a failed one fails the flush; the channel's retry budget resets per batch. Round 5: every Result-returning call in the OTLP client (77 sites) is inspected outside a 1-row reasoned table; the when_flushed decision table of C07 runs here too. Round 6: constructors named http/grpc/proto/json build the transport, encoding and service path their names say and each signal module names its own collector service; Proto/Json match arms are not crossed; poison() empties the connection slot on every path; the receiver-flag rules of C07 run here too.",
+            "retryable. Not decided: network/collector behaviour, back-off timing. Round 2: every configured signal is flushed and a failed one fails the flush; the channel's retry budget resets per batch. Round 5: every Result-returning call in the OTLP client (77 sites) is inspected outside a 1-row reasoned table; the when_flushed decision table of C07 runs here too. Round 6: constructors named http/grpc/proto/json build the transport, encoding and service path their names say and each signal module names its own collector service; Proto/Json match arms are not crossed; poison() empties the connection slot on every path; the receiver-flag rules of C07 run here too. Round 7: Sender/Receiver are not Clone; every awaited Result-yielding client future is inspected; EncodedPayload::len counts bytes; every HTTP connection handed out is driven by a spawned task; the running request size follows every push.",
             "custom MIR rules: await-source resolution, per-iteration removal counting, value-set evaluation of guards",
             "3/C12"),
     "C14": ("Decides on built MIR: on every path through OtlpInner::emit exactly one of {Sender::send on the metrics / "
@@ -143,7 +143,7 @@ CLAIMS = {
             "?-checked and whose stream impl makes text/bool/null errors; the logs encoder has no declining path; "
             "is_span_filter/is_metric_filter build KindFilter(Span/Metric), KindFilter::matches compares "
             "pull::<Kind>(\"evt_kind\") with its own kind; FromValue for Kind = downcast then Value::parse; the kind's "
-            "text constants agree between Display and FromStr. Not decided: which sval calls a runtime value produces. Round 2: the metrics encoder declines only for a non-metric kind or a missing/unusable metric_value, never because another property (metric_agg) is absent. Round 4: the traces encoder declines only on the kind filter or a missing/point extent; the OTLP send loop rules of C12 run here too. Round 5: FromValue for Kind cannot answer before the typed-value attempt and the lenient parser (no exact-text shortcut). Round 6: the discard counter is bumped with one atomic read-modify-write (counter rule of C09 over emit_otlp).",
+            "text constants agree between Display and FromStr. Not decided: which sval calls a runtime value produces. Round 2: the metrics encoder declines only for a non-metric kind or a missing/unusable metric_value, never because another property (metric_agg) is absent. Round 4: the traces encoder declines only on the kind filter or a missing/point extent; the OTLP send loop rules of C12 run here too. Round 5: FromValue for Kind cannot answer before the typed-value attempt and the lenient parser (no exact-text shortcut). Round 6: the discard counter is bumped with one atomic read-modify-write (counter rule of C09 over emit_otlp). Round 7: the tag-override rule of C13 runs here too.",
             "custom MIR rules: path enumeration with per-path counting and provenance, guard edges, error-discipline "
             "(ignored Result) check, sibling-impl agreement",
             "3/C14"),
@@ -156,7 +156,7 @@ CLAIMS = {
             "sort order of the listing, the end current_file_name() reads and the end retention removes are consistent; "
             "file_name() formats prefix, period, id, ext in that order and read_file_name_ts() reads part 1 of split('.'); "
             "new files are named from the period of this batch's clock reading; only entries matching prefix and extension "
-            "enter the listing. Every numeric component of a name is written zero-padded to a fixed width, coarse to fine (format templates decoded from the constant the compiler emits). Not claimed: prefix-extending sibling sets, calendar arithmetic. Round 2: the set directory returned for a template is tested for emptiness and replaced (fixed defect: bare file names); retention is a loop that deletes while len >= bound, bound = max_files.saturating_sub(1); the name's counter is the whole time elapsed since the start of the current day/hour/minute (exact field sets per arm) of the batch's one clock reading, which also gives the period; an opened file's period is parsed from the name of the very path that was opened. Round 4: the Channel impl rules (clear() zeroes every counter it assigns) run here too. Round 5: a directory entry joins the set only through a decision in which the `.` separator takes part next to prefix/extension, and in which both the configured prefix (prefix-side test) and extension (suffix-side test) take part - written inline, in closures or in a predicate function, directly or through formatted copies (found D21, fixed); the rewind rule of C10 runs here too. Round 6: every builder option reaches Worker::new / FileSetInner unchanged under its own name; StdFile::len is metadata().len().",
+            "enter the listing. Every numeric component of a name is written zero-padded to a fixed width, coarse to fine (format templates decoded from the constant the compiler emits). Not claimed: prefix-extending sibling sets, calendar arithmetic. Round 2: the set directory returned for a template is tested for emptiness and replaced (fixed defect: bare file names); retention is a loop that deletes while len >= bound, bound = max_files.saturating_sub(1); the name's counter is the whole time elapsed since the start of the current day/hour/minute (exact field sets per arm) of the batch's one clock reading, which also gives the period; an opened file's period is parsed from the name of the very path that was opened. Round 4: the Channel impl rules (clear() zeroes every counter it assigns) run here too. Round 5: a directory entry joins the set only through a decision in which the `.` separator takes part next to prefix/extension, and in which both the configured prefix (prefix-side test) and extension (suffix-side test) take part - written inline, in closures or in a predicate function, directly or through formatted copies (found D21, fixed); the rewind rule of C10 runs here too. Round 6: every builder option reaches Worker::new / FileSetInner unchanged under its own name; StdFile::len is metadata().len(). Round 7: ActiveFileSet::read stores the sorted listing on every Ok path; every buffer written to the active file is added to file_size_bytes on every path to the write.",
             "custom MIR rules: truth table of a closure predicate, feasible-path must-pass-through, who-may-call, "
             "provenance of deleted paths, sibling agreement (sort/first/pop), format-argument order",
             "3/C11"),
@@ -170,7 +170,7 @@ CLAIMS = {
             "prost schema with that tag and lowerCamelCase JSON name, LABEL/INDEX stems agree (one fixed defect: "
             "asInt/asDouble); (R4) well-known keys are lifted to their fields and not re-emitted under their own key; (R5) "
             "the file writer's fields are begin/end balanced. Not decided: structure preservation, 128-bit/non-finite "
-            "rendering, JSON well-formedness (sval_json/sval_protobuf/value-bag). Round 2: the terminal sparkline index is discharged by shape (normalise-then-scale with the division first, K = len-1) instead of an allow row; only identifier-literal labels may carry sval's no-escaping tag (computed property keys are escaped); argument agreement sees through trait-method calls (start/end time of metric points). Round 4: where a sink enumerates properties into an open sval structure and stops on a stream error, the enclosing function must not close the structure as if complete (found D19, fixed; the OTLP attribute streamer is known finding D20); integer metric points are combined with checked arithmetic only. Round 6: Proto/Json match arms use their own encoder, label and content type; JSON id carriers stream the id's own Display and protobuf ones its big-endian bytes; sequence-valued metric points are contiguous buckets (start, advance, end by statement order).",
+            "rendering, JSON well-formedness (sval_json/sval_protobuf/value-bag). Round 2: the terminal sparkline index is discharged by shape (normalise-then-scale with the division first, K = len-1) instead of an allow row; only identifier-literal labels may carry sval's no-escaping tag (computed property keys are escaped); argument agreement sees through trait-method calls (start/end time of metric points). Round 4: where a sink enumerates properties into an open sval structure and stops on a stream error, the enclosing function must not close the structure as if complete (found D19, fixed; the OTLP attribute streamer is known finding D20); integer metric points are combined with checked arithmetic only. Round 6: Proto/Json match arms use their own encoder, label and content type; JSON id carriers stream the id's own Display and protobuf ones its big-endian bytes; sequence-valued metric points are contiguous buckets (start, advance, end by statement order). Round 7: no sval stream of the encoders overrides `tag` without examining the tag; the division by the number of points is discharged by a dominating switch on the divisor (allow row removed); OTLP durations are converted with as_nanos only.",
             "call-graph reachability + panic-site inventory on MIR, guard liveness, provenance of for_each receivers, "
             "declarative-table cross-check (sval attributes vs prost-generated schema)",
             "3/C13"),
@@ -200,7 +200,7 @@ CLAIMS = {
             "to_owned rebuild Text as Text and Hole as Hole with every field taken from the same field of the source (label, "
             "formatter); TemplateKind::parts covers every variant; Template::to_owned goes through Part::to_owned. Not decided: "
             "that eq is an equivalence insensitive to fragment splitting (a value-level defect for an empty fragment next to a "
-            "hole is known and out of reach). Round 2: each cursor of eq indexes only the sequence whose length bounds it (contradiction rule); #[emit::fmt] flags reach the generated format string verbatim; generated __private_format/emit calls agree with the hooks' parameters. Round 4: every return of Render::write goes through the loop over the parts and the writer is handed to nothing but Part::write; the macro's template visitor copies each text fragment unchanged into the literal and the generated Part::text. Round 5: #[emit::fmt] stores the flag string exactly as written in both argument forms.",
+            "hole is known and out of reach). Round 2: each cursor of eq indexes only the sequence whose length bounds it (contradiction rule); #[emit::fmt] flags reach the generated format string verbatim; generated __private_format/emit calls agree with the hooks' parameters. Round 4: every return of Render::write goes through the loop over the parts and the writer is handed to nothing but Part::write; the macro's template visitor copies each text fragment unchanged into the literal and the generated Part::text. Round 5: #[emit::fmt] stores the flag string exactly as written in both argument forms. Round 7: the macro-props lookup rule runs here too; format! returns the buffer the template was rendered into.",
             "custom MIR rules: panic-site inventory with interval-lite discharges, guard-edge conditions, aggregate field "
             "provenance, forwarding",
             "3/C16"),
@@ -214,7 +214,7 @@ CLAIMS = {
             "definition of `node`), cannot reach another search from the not-found edge (break, not continue), and returns "
             "Option<&MinLevelFilter>::matches(evt) over the event's module; registration overwrites exactly the final node; "
             "Path::segments splits on \"::\"; FromValue for Level is downcast-then-Value::parse. Not decided: the lenient "
-            "level parser's language. Round 4: FromIterator for the path map registers each pair once through min_level in input order (no sorting, de-duplication or dropping in between). Round 6: registration stores are unconditional overwrites of exactly the level given; intermediate trie nodes carry no level.",
+            "level parser's language. Round 4: FromIterator for the path map registers each pair once through min_level in input order (no sorting, de-duplication or dropping in between). Round 6: registration stores are unconditional overwrites of exactly the level given; intermediate trie nodes carry no level. Round 7: any from_iter of the map, trait or inherent, is held to the registration discipline.",
             "custom MIR rules: call-chain provenance, dominance-sensitive definitions, who-may-mutate, sibling comparator "
             "agreement, ADT declaration order",
             "3/C17"),
@@ -229,7 +229,7 @@ CLAIMS = {
             "to the inner ctxt; set_active_traceparent is mem::replace on the thread-local returning the previous value; frames "
             "carry slot/active/inner consistently; with_current synthesises SpanCtxt(trace_id, span_parent, span_id) only when "
             "sampled, else empty; ExcludeTraceparentProps drops the three id keys under `check`. 'Exactly once per trace' "
-            "across threads follows from these + C03 (paper step). Round 2: is_sampled() masks with SAMPLED; frames are entered/exited only through the RAII guard (held across the body, dropped on unwind) so the previous traceparent is restored on every exit; a guard the filter rejected never runs a completion (shared with C03/C05).",
+            "across threads follows from these + C03 (paper step). Round 2: is_sampled() masks with SAMPLED; frames are entered/exited only through the RAII guard (held across the body, dropped on unwind) so the previous traceparent is restored on every exit; a guard the filter rejected never runs a completion (shared with C03/C05). Round 7: push fills the frame's slot and marks it active on every path; on the span path TraceparentFilter::matches returns the incoming traceparent's sampled flag.",
             "custom MIR rules: guard edges and closure return provenance, who-may-call with argument shape, field-write "
             "provenance, aggregate field origins",
             "3/C18"),
@@ -243,7 +243,7 @@ CLAIMS = {
             "matches/blocking_flush are constant true, now() is None; Setup::try_init_slot assembles the runtime from its own "
             "five fields, ?-checks init, and reads slot.get() for the Init handle only after (on the success edge of) init; "
             "init_slot = try_init_slot(..).expect(..); is_enabled = get().is_some(); the unsafe Send/Sync impls are conditional. "
-            "The behaviour under all interleavings then rests on the OnceLock contract (trusted). Round 2: every runtime assembled in emit::setup (chain from Runtime::new() or Runtime::build) carries all five components from the like-named fields; the crate-level accessors and blocking_flush are straight-line reads of runtime::shared() (flush true before init). Thorough tier: the no_std slot is constant-empty and never enabled. Round 4: the installed Runtime passes its own components, runs its own pipeline and forwards blocking_flush unconditionally (rules shared with C01).",
+            "The behaviour under all interleavings then rests on the OnceLock contract (trusted). Round 2: every runtime assembled in emit::setup (chain from Runtime::new() or Runtime::build) carries all five components from the like-named fields; the crate-level accessors and blocking_flush are straight-line reads of runtime::shared() (flush true before init). Thorough tier: the no_std slot is constant-empty and never enabled. Round 4: the installed Runtime passes its own components, runs its own pipeline and forwards blocking_flush unconditionally (rules shared with C01). Round 7: every Rng and Clock wrapper/bridge (the erased views the slot hands out) defines and forwards every method.",
             "custom MIR rules: API-usage whitelist on a type, error discipline, dominance on ?-success edges, aggregate "
             "provenance, ADT interior-mutability scan, impl predicates",
             "3/C20"),
@@ -256,7 +256,7 @@ CLAIMS = {
             "reaches no visitor call); Value and OwnedValue forward sval/serde/Debug/Display to the wrapped bag; buffering "
             "into the thread-local ambient context only downcasts (TraceId/SpanId) or to_shared()s and never calls a "
             "parse/format/cast function; owned/shared copies are the bag's. NOT decided (the larger part of the property): "
-            "what consumers observe through value-bag / sval / serde bridging. Round 2: the attribute -> hook table of the proc-macro crate selects, for each #[emit::as_*], the inspecting and anonymous capture hook of its own mode (read off quote! templates); lookup in macro-built props skips None entries. Round 4: every field of a macro argument struct is the argument's value, never a presence test; impl ToValue for dyn Error/Debug/Display uses the bag constructor of its own trait. Round 5: stacked attributes compose: the evaluator call in eval_hooks' attribute loop takes a loop-carried accumulator (its own previous output), which is what is returned. Round 6: the thread-local frame construction rules (every pushed pair is inserted on every path) run here too.",
+            "what consumers observe through value-bag / sval / serde bridging. Round 2: the attribute -> hook table of the proc-macro crate selects, for each #[emit::as_*], the inspecting and anonymous capture hook of its own mode (read off quote! templates); lookup in macro-built props skips None entries. Round 4: every field of a macro argument struct is the argument's value, never a presence test; impl ToValue for dyn Error/Debug/Display uses the bag constructor of its own trait. Round 5: stacked attributes compose: the evaluator call in eval_hooks' attribute loop takes a loop-carried accumulator (its own previous output), which is what is returned. Round 6: the thread-local frame construction rules (every pushed pair is inserted on every path) run here too. Round 7: the lossless-cast rule of C13 runs here too.",
             "custom MIR rules: resolved-callee mode tables (writer/reader agreement across three layers), loop-edge "
             "reachability, forbidden-call whitelist",
             "3/C19"),
